@@ -113,13 +113,19 @@ def run(chk):
     chk.ob('C16-F', 'the regex accepts every SB (line CR)* line [CR] EB CR frame and extracts exactly the framed text', bad is None,
            bad or '', setup.loc, key='C16-F|regex-language')
     hd = ix.func('mllp.MLLPRequestHandler.handle')
+    acc0 = None
+    for n in own_nodes(hd.node):
+        if isinstance(n, ast.Assign) and isinstance(n.value, ast.Call) and norm(n.value.func) == 'self.request.recv':
+            acc0 = norm(n.targets[0])
+    if acc0 is None:
+        raise AnalysisError('handle(): the initial recv into an accumulator variable was not found')
     endseq = None
     for n in own_nodes(hd.node):
         if isinstance(n, ast.Assign) and norm(n.value) in ('self.eb + self.cr',):
             endseq = norm(n.targets[0])
     loop_ok = False
     for n in own_nodes(hd.node):
-        if isinstance(n, ast.While) and endseq and norm(n.test) == 'line[-2:] != %s' % endseq:
+        if isinstance(n, ast.While) and endseq and norm(n.test) in ('%s[-2:] != %s' % (acc0, endseq), 'not %s.endswith(%s)' % (acc0, endseq)):
             loop_ok = True
     chk.ob('C16-F', 'handle() reads until the accumulator ends with EB CR', bool(endseq) and loop_ok,
            'end sequence %s, loop condition ok: %s' % (endseq, loop_ok), hd.loc, key='C16-F|end-seq')
@@ -184,7 +190,7 @@ def run(chk):
         after_route |= g.reach(r)
     chk.ob('C16-H', 'the early returns happen before any routing', not (set(rets_) & after_route), '', hd.loc, key='C16-H|early')
     first = [n for n in own_nodes(hd.node) if isinstance(n, ast.If) and 'self.sb' in norm(n.test)]
-    ok = bool(first) and norm(first[0].test) in ('line[:1] != self.sb',) and any(isinstance(x, ast.Return) for x in first[0].body)
+    ok = bool(first) and norm(first[0].test) in ('%s[:1] != self.sb' % acc0, 'not %s.startswith(self.sb)' % acc0) and any(isinstance(x, ast.Return) for x in first[0].body)
     chk.ob('C16-H', 'input not starting with the start block is dropped', ok, '', hd.loc, key='C16-H|first-byte')
     ex = ix.func('mllp.MLLPRequestHandler._extract_hl7_message')
     ok = any(norm(n) == 'matched.groups()[0]' or norm(n) == 'matched.group(1)' for n in own_nodes(ex.node)
